@@ -34,7 +34,7 @@ def items(tier: str) -> List[Any]:
             seen.add(s)
             out.append(("g2", s))
     # loops that really iterate (counter conditions): runs that take back edges, dispatch paths through loop headers
-    for s in spaces.counted_loops(small[:2], tier, max_size=2 if tier == "quick" else 3):
+    for s in spaces.counted_loops(small[:2], tier, max_size=2):
         if s not in seen:
             seen.add(s)
             out.append(("g2", s))
@@ -280,7 +280,7 @@ def worker(item: Any, res: runner.Result) -> None:  # pylint: disable=too-many-l
         # "exactly that path's executions": the function's contexts equal those tealer computes for the
         # contract rewritten so that every departure from the path leads to `err` (differential)
         all_blk = harness.blocks_by_line([b for s_ in teal.subroutines.values() for b in s_.blocks] + list(teal.main.blocks))
-        cut = cut_source(lines, path, all_blk) if (TIER != "quick" or (len(path) >= 2 and (mode == "g2" or "rej:" in src))) else "skip"
+        cut = cut_source(lines, path, all_blk) if (len(path) >= 2 and (mode == "g2" or "rej:" in src)) else "skip"
         if cut == "skip":
             pass
         elif cut is None:
@@ -383,7 +383,7 @@ def worker(item: Any, res: runner.Result) -> None:  # pylint: disable=too-many-l
         res.count("orders_tried")
     # the same functions built through a group configuration (one contract listing all of them, in both
     # listing orders): each name must denote the function of its own dispatch path
-    if len(alone) >= 1 and (TIER != "quick" or mode == "g2" or "rej:" in src):
+    if len(alone) >= 1 and (mode == "g2" or "rej:" in src):
         import os  # pylint: disable=import-outside-toplevel
         from pathlib import Path  # pylint: disable=import-outside-toplevel
         from tealer.utils.command_line.common import init_tealer_from_config  # pylint: disable=import-outside-toplevel
